@@ -180,11 +180,11 @@ End Mono.
 Theorem run_fuel_independent_l n m p out oc : (n <= m)%nat ->
   run n p = (out, oc) -> oc <> Failed ENoFuel -> run m p = (out, oc).
 Proof.
-  intros Hnm H Hoc. unfold run in *.
-  destruct (exec_list (exec (pfuncs p) n) (pmain p) (init_state p)) as [c s] eqn:E.
+  intros Hnm H Hoc. unfold run in *. destruct (init_state p) as [s0|]; [|exact H].
+  destruct (exec_list (exec (pfuncs p) n) (pmain p) s0) as [c s] eqn:E.
   injection H as <- <-.
   assert (Nc : ~ nofuel c).
   { intros N. unfold nofuel in N. subst c. apply Hoc. reflexivity. }
-  pose proof (le_exec_list _ _ (proj2 (fuel_monotone (pfuncs p) n m Hnm)) (pmain p) (init_state p) c s E Nc) as E2.
+  pose proof (le_exec_list _ _ (proj2 (fuel_monotone (pfuncs p) n m Hnm)) (pmain p) s0 c s E Nc) as E2.
   rewrite E2. reflexivity.
 Qed.
